@@ -369,3 +369,44 @@ def r7(rr, repo):
             rr.ob("histogram bounds and counts are recognised by the end of the flattened key, for every metric name", verdict, mod, st, witness=wit, key='histogram-lists-by-suffix')
         keep = [c for b in numeric for c in ast.walk(b) if isinstance(c, ast.IfExp) and U(c.body).startswith('float(') and 'isinstance' in U(c.test) and 'int' in U(c.test) and 'float' in U(c.test)]
         rr.ob('in that branch every int / float element stays a number', bool(keep), mod, st, witness=U(numeric[0])[:120], key='histogram-elements-numeric')
+
+
+@rule('C16.R8', "a run exports only what ITS allow-list lets through: the emitter object outlives runs (it is a class attribute of Filter) and keeps the last facet the exporter gave it, and the exporter only replaces "
+                "that facet when it has something to send - so the facet is emptied where a run begins (emit_start), otherwise a run in lock-down mode after a run with an allow-list sends the first run's metrics "
+                "with every heartbeat")
+def r8(rr, repo):
+    mod, es = repo.find(f'{LINF}::OpenFilterLineage.emit_start')
+    resets = [n for n in walk_scope(es) if isinstance(n, ast.Assign) and any(U(t) == 'self.facets' for t in n.targets)]
+    fresh = [n for n in resets if (isinstance(n.value, ast.Dict) and not n.value.keys) or (isinstance(n.value, ast.Call) and U(n.value.func) == 'dict' and not n.value.args and not n.value.keywords)]
+    first_emit = min([c.lineno for c in q.calls_in(es) if U(c.func).endswith('_emit_event')] or [10 ** 9])
+    unconditional = [n for n in fresh if not [t for t, pol in q.guards_of(n, stop=es)] and n.lineno < first_emit]
+    # the alternative: the exporter hands over its facet on every export, empty or not, and the emitter stores it as it is
+    bmod, exp = repo.find(f'{BR}::OTelLineageExporter.export')
+    ups = [c for c in q.calls_in(exp) if U(c.func).endswith('update_heartbeat_lineage') and q.kwarg(c, 'facets') is not None]
+    always = [c for c in ups if not [t for t, pol in q.guards_of(c, stop=exp) if U(t) == U(q.kwarg(c, 'facets'))]]
+    _, upd = repo.find(f'{LINF}::OpenFilterLineage.update_heartbeat_lineage')
+    stores = [n for n in walk_scope(upd) if isinstance(n, ast.Assign) and any(U(t) == 'self.facets' for t in n.targets)]
+    stores_always = [n for n in stores if not [t for t, pol in q.guards_of(n, stop=upd) if U(t) == 'facets']]
+    ok = bool(unconditional) or (bool(always) and bool(stores_always))
+    rr.ob('the facet the heartbeats carry is emptied at the start of every run (or replaced by every export, empty or not)', ok, mod, (unconditional or resets or [es])[0],
+          witness=f'emit_start empties self.facets before START: {bool(unconditional)}; export() hands over an empty facet too: {bool(always) and bool(stores_always)}', key='facets-reset-per-run')
+
+
+@rule('C16.R9', "an allow-list file that lists nothing means lock-down: YAML gives None for 'safe_metrics:' with nothing under it and for an empty document - the reader turns both into the empty list before it "
+                "iterates (a default passed to .get() only covers a MISSING key), so the file still takes precedence; an exception there would be swallowed and the environment variable used instead")
+def r9(rr, repo):
+    mod, fn = repo.find(f'{CF}::read_allowlist')
+    loads = [n for n in walk_scope(fn) if isinstance(n, ast.Assign) and any(isinstance(c, ast.Call) and U(c.func).endswith('safe_load') for c in ast.walk(n.value))]
+    rr.floor('YAML loads in read_allowlist', len(loads), 1, mod, fn)
+    def or_empty(v):
+        return isinstance(v, ast.BoolOp) and isinstance(v.op, ast.Or) and isinstance(v.values[-1], (ast.Dict, ast.List, ast.Tuple, ast.Set)) and not getattr(v.values[-1], 'keys', getattr(v.values[-1], 'elts', None))
+    for n in loads:
+        doc = U(n.targets[0])
+        guarded = or_empty(n.value) or any(isinstance(x, ast.If) and f'{doc} is None' in U(x.test) or isinstance(x, ast.If) and U(x.test) == f'not {doc}' for x in walk_scope(fn))
+        rr.ob('an empty document is read as an empty mapping', guarded, mod, n, witness=U(n)[:100], key='empty-document')
+    gets = [n for n in walk_scope(fn) if isinstance(n, ast.Assign) and any(isinstance(c, ast.Call) and isinstance(c.func, ast.Attribute) and c.func.attr == 'get' and c.args and q.const_str(c.args[0]) == 'safe_metrics' for c in ast.walk(n.value))]
+    rr.floor("reads of 'safe_metrics'", len(gets), 1, mod, fn)
+    for n in gets:
+        nm = U(n.targets[0])
+        guarded = or_empty(n.value) or any(isinstance(x, ast.If) and (f'{nm} is None' in U(x.test) or U(x.test) == f'not {nm}') for x in walk_scope(fn))
+        rr.ob("a 'safe_metrics' key with no value is read as the empty list", guarded, mod, n, witness=U(n)[:100], key='null-means-empty')
